@@ -67,7 +67,7 @@ def main():
                 fired = []
                 details = {}
                 for pr in props:
-                    c = run([os.path.join(VERIF, "bin", "corscheck"), "-repo", repo, "-verif", vd, "-property", pr])
+                    c = run([os.environ.get("CORSCHECK_BIN", os.path.join(VERIF, "bin", "corscheck")), "-repo", repo, "-verif", vd, "-property", pr])
                     if c.returncode != 0:
                         fired.append(pr)
                         details[pr] = [l for l in c.stdout.splitlines() if " FAIL " in l][:2]
